@@ -497,7 +497,7 @@ package types
 //@   ensures  [updated-is-a-private-copy] updated ==> exists(m, 0, len(valSet.Validators), fresh(valSet.Validators[m]) && bytesEq(valSet.Validators[m].Address, val.Address) && valSet.Validators[m].VotingPower == val.VotingPower && valSet.Validators[m].Accum == val.Accum)
 
 //@ func (*ValidatorSet).Remove
-//@   props C14 C16 C01 C15 C04 C13 C02
+//@   props C14 C16 C15
 //@   requires wfValSet(valSet)
 //@   assigns  valSet.Validators, valSet.proposer, valSet.totalVotingPower, valSet.Validators[*]
 //@   ensures  [caches-invalidated] removed ==> valSet.proposer == nil && valSet.totalVotingPower == 0
